@@ -61,16 +61,19 @@ def infer_redirection(url, recursive=True):
 
                 potential_target = unquote(obvious_redirect_match.group(2))
 
+                # NOTE: a scheme is case-insensitive
+                potential_scheme = potential_target[:8].lower()
+
                 # Basic HTTPS
                 if (
-                    potential_target.startswith("https://")
+                    potential_scheme.startswith("https://")
                     and len(potential_target) > 8
                 ):
                     target = potential_target
 
                 # Basic HTTP
                 elif (
-                    potential_target.startswith("http://")
+                    potential_scheme.startswith("http://")
                     and len(potential_target) > 7
                 ):
                     target = potential_target
